@@ -886,7 +886,7 @@ func (ev *specEnv) callExpr(e *ast.CallExpr, n *specNode) Val {
 			if mt, ok := a.GT.Underlying().(*types.Map); ok {
 				_, _, sz := x.mapClassesOf(a.T, mt)
 				s := x.classTermSort(ev.st, sz, arr(sInt, sInt))
-				return Sc{mkSelect(s, a.T), types.Typ[types.Int]}
+				return Sc{x.outerSelect(s, a.T), types.Typ[types.Int]}
 			}
 		}
 		fail("len of unsupported value in %q", n.text)
@@ -972,7 +972,7 @@ func (ev *specEnv) callExpr(e *ast.CallExpr, n *specNode) Val {
 		et := s.GT.Underlying().(*types.Slice).Elem()
 		srt := x.heapSort(et)
 		A := x.classTermSort(ev.st, x.elemPrefix(s.Base, et), arr(sInt, arr(sInt, srt)))
-		return ArrV{mkSelect(A, s.Base), et}
+		return ArrV{x.outerSelect(A, s.Base), et}
 	case "idxof", "atpos":
 		// idxof(s, k): choice function for a position of k in slice s. Its defining axiom fires only where
 		// a position hint atpos(s, i) was given, which keeps quantifier instantiation under control.
@@ -985,9 +985,9 @@ func (ev *specEnv) callExpr(e *ast.CallExpr, n *specNode) Val {
 		x.decls.add(fn, fmt.Sprintf("(declare-fun %s (%s Int Int %s) Int)\n(declare-fun %s (%s Int) Bool)\n(assert (forall ((a %s) (j Int)) (! (%s a j) :pattern ((%s a j)))))\n(assert (forall ((a %s) (o Int) (n Int) (k %s) (j Int)) (! (=> (and (<= o j) (< j (+ o n)) (= (select a j) k)) (and (<= 0 (%s a o n k)) (< (%s a o n k) n) (= (select a (+ o (%s a o n k))) k))) :pattern ((%s a o n k) (%s a j)))))",
 			fn, arr(sInt, srt), srt, mk, arr(sInt, srt), arr(sInt, srt), mk, mk, arr(sInt, srt), srt, fn, fn, fn, fn, mk))
 		if fname == "atpos" {
-			return boolV(app(sBool, mk, mkSelect(A, sl.Base), app(sInt, "+", sl.Off, argT(1))))
+			return boolV(app(sBool, mk, x.outerSelect(A, sl.Base), app(sInt, "+", sl.Off, argT(1))))
 		}
-		return Sc{app(sInt, fn, mkSelect(A, sl.Base), sl.Off, sl.Len, arg(1).(Sc).T), types.Typ[types.Int]}
+		return Sc{app(sInt, fn, x.outerSelect(A, sl.Base), sl.Off, sl.Len, arg(1).(Sc).T), types.Typ[types.Int]}
 	case "concat":
 		return Sc{app(sStr, "str.cat_", arg(0).(Sc).T, arg(1).(Sc).T), types.Typ[types.String]}
 	case "strlt":
